@@ -173,7 +173,11 @@ func Verify(root *etree.Element, sigpath string, extraCerts []*x509.Certificate)
 		if sig.Reference.URI[0] != '#' {
 			return nil, errors.New("xmldsig: unsupported reference URI")
 		}
-		reference = root.FindElement(fmt.Sprintf("[@Id='%s']", sig.Reference.URI[1:]))
+		refPath, err := etree.CompilePath(fmt.Sprintf("[@Id='%s']", sig.Reference.URI[1:]))
+		if err != nil {
+			return nil, errors.New("xmldsig: unsupported reference URI")
+		}
+		reference = root.FindElementPath(refPath)
 	}
 	if reference == nil {
 		return nil, errors.New("xmldsig: unable to locate reference")
